@@ -359,6 +359,7 @@ def run_graphs(S, tier, prop="C20", with_refs=False):
     def work(chunk):
         S2 = Stats()
         td = tempfile.mkdtemp(prefix="fcpmc-c20g-")
+        k_case = 0
         try:
             for g, ref in chunk:
                 S2.count("states")
@@ -374,7 +375,11 @@ def run_graphs(S, tier, prop="C20", with_refs=False):
                 visible_ok = ref is None or ref[0] not in r_main or (ref[1] in reach(g, ref[0]))
                 inp = {"files": texts, "family": "import-graph", "graph": {k: list(v) for k, v in g.items()}, "reference": list(ref) if ref else None}
                 try:
-                    res = get_fcp(os.path.join(td, "main.fcp"), Logger({}))
+                    # every other case goes through the logger the entry point creates by default: it lives as long as the
+                    # process, and the files of consecutive cases have the same paths and other contents
+                    k_case += 1
+                    res = get_fcp(os.path.join(td, "main.fcp"), Logger({})) if k_case % 2 else get_fcp(os.path.join(td, "main.fcp"))
+                    inp["logger"] = "fresh" if k_case % 2 else "the entry point's default, used by the cases before"
                 except Exception as e:  # noqa
                     S2.violation(prop + ".graph", prop + ".graph/exception:%s" % type(e).__name__, inp, expected="Ok" if visible_ok else "Err", actual=str(e)[:200])
                     continue
@@ -404,7 +409,62 @@ def run_graphs(S, tier, prop="C20", with_refs=False):
     gs = graph_cases(tier, with_refs)
     for s2 in pmap(work, chunks(gs, 400)):
         S.merge(s2)
+    run_symlinked(S, prop)
     return len(gs)
+
+
+def run_symlinked(S, prop):
+    """One module file reachable under two spellings (through a symbolic link to its directory, or to the file): it is ONE
+    module - declared once in the result, whichever spellings the import statements use and in whichever order."""
+    import shutil
+    import tempfile
+    from fcp.parser import get_fcp
+    from fcp.error import Logger
+
+    T = 'version: "3"\nenum Unit { v = 0, a = 1, }\nstruct Types { u @0: Unit, }\n'
+    ST = 'version: "3"\nmod types;\nstruct Status { t @0: Types, }\n'
+    layouts = {
+        "dir-link": {"files": {"common/types.fcp": T, "common/status.fcp": ST}, "links": {"vendor": "common"}},
+        "file-link": {"files": {"common/types.fcp": T, "common/status.fcp": ST}, "links": {"common/kinds.fcp": "types.fcp"}},
+    }
+    mains = {
+        "dir-link": [("common.types", "vendor.status"), ("vendor.status", "common.types"), ("vendor.types", "common.types"), ("common.status", "vendor.status"), ("vendor.types", "vendor.status", "common.status")],
+        "file-link": [("common.types", "common.kinds"), ("common.kinds", "common.status"), ("common.status", "common.kinds")],
+    }
+    for lname, lay in layouts.items():
+        for imports in mains[lname]:
+            S.count("states")
+            S.count("transitions")
+            S.count("executions")
+            S.add("nontrivial", ("symlinked", lname, imports))
+            td = tempfile.mkdtemp(prefix="fcpmc-c20s-")
+            try:
+                for fn, body in lay["files"].items():
+                    os.makedirs(os.path.dirname(os.path.join(td, fn)), exist_ok=True)
+                    open(os.path.join(td, fn), "w").write(body)
+                for ln, target in lay["links"].items():
+                    os.symlink(target, os.path.join(td, ln))
+                main = 'version: "3"\n' + "".join("mod %s;\n" % i for i in imports) + "struct Main { x @0: u8, }\n"
+                open(os.path.join(td, "main.fcp"), "w").write(main)
+                inp = {"files": dict(lay["files"], **{"main.fcp": main}), "symbolic_links": lay["links"], "family": "symlinked"}
+                try:
+                    res = get_fcp(os.path.join(td, "main.fcp"), Logger({}))
+                except Exception as e:  # noqa
+                    S.violation(prop + ".graph", prop + ".graph/exception:%s" % type(e).__name__, inp, expected="Ok", actual=str(e)[:200])
+                    continue
+                if res.is_err():
+                    S.add("outcomes", "symlinked-err")
+                    S.violation(prop + ".graph", prop + ".graph/one-module-under-two-spellings/rejected", inp, expected="Ok", actual=[m[0] for m in res.err().msg])
+                    continue
+                got = sorted([st.name for st in res.unwrap().structs] + [e.name for e in res.unwrap().enums])
+                want = sorted(["Main", "Types", "Unit"] + (["Status"] if any(i.endswith("status") for i in imports) else []))
+                if got != want:
+                    S.add("outcomes", "symlinked-differs")
+                    S.violation(prop + ".graph", prop + ".graph/one-module-under-two-spellings/%s" % ("duplicated" if len(got) > len(set(got)) else "missing-or-extra"), inp, expected=want, actual=got)
+                else:
+                    S.add("outcomes", "symlinked-ok")
+            finally:
+                shutil.rmtree(td, ignore_errors=True)
 
 
 def run(tier):
